@@ -38,7 +38,7 @@ TRUSTED = ["the `re` engine is an oracle: the harness evaluates the patterns on 
            "through the model: hit cases where an atom is a member of two compared pairs, and members dropped by include_paths "
            "(startswith test), are kept out of the correspondence, counted, and judged by the direct oracle only (known finding K13c)",
            "exclude_types / exclude_obj_callback / include_obj_callback branches of _skip_this are absent from the model"]
-ASSUMPTIONS = ["tree-shaped inputs (no shared mutable containers), no bytes dict keys (the path printer raises on them)",
+ASSUMPTIONS = ["inputs without cycles (a container referenced from several positions is generated on purpose: the result must be that of the unshared value), no bytes dict keys (the path printer raises on them)",
                "no two ==-equal set members of different type, no set member str containing ':' or equal to 'NONE' (C06/C07 findings)"]
 
 HDR = ("From DD Require Import Base.PyStr Base.Value Diff.Tree Diff.DiffModel Diff.DiffShow "
